@@ -34,6 +34,36 @@ impl DFA {
     }
 }
 
+// Read-only accessors for the external verification harness (cargo feature `verif`).
+#[cfg(feature = "verif")]
+impl DFA {
+    pub fn verif_input(&self, id: InpId) -> &Inp {
+        self.inputs.lookup(id)
+    }
+
+    pub fn verif_num_inputs(&self) -> usize {
+        self.inputs.store.len()
+    }
+
+    pub fn verif_subdfa(&self, id: DFAId) -> &DFA {
+        self.subdfas.lookup(id)
+    }
+}
+
+#[cfg(feature = "verif")]
+impl InpId {
+    pub fn verif_index(&self) -> usize {
+        self.0 as usize
+    }
+}
+
+#[cfg(feature = "verif")]
+impl DFAId {
+    pub fn verif_index(&self) -> usize {
+        self.0
+    }
+}
+
 impl PartialEq for DFA {
     fn eq(&self, other: &Self) -> bool {
         let Self {
